@@ -242,6 +242,9 @@ def body(chk):
         allf = list(fields)
         cases.append(dict(level=level, seed=chk.seed + 999, k=0, images=(("HH", None, 2, 2),), blank=allf, files=("VOL", "LED", "IMG"), fs="local",
                           tag=f"all-blank:{len(allf)}"))
+    for j, c in enumerate(cases):   # every third product is opened by a caller that treats warnings as errors: a blank field is not an exception
+        if j % 3 == 1:
+            c["strict_warnings"] = True
     lc.prepare_layouts(cases)
     results = checklib.pmap(leafrun.run_plan, cases, chk.scratch, chunksize=8)
     for res in results:
